@@ -147,7 +147,10 @@ CHECK_DEADLOCK FALSE
         for kind, term in zip(kinds, terms):
             if rng.random() < 0.4:
                 prog.append({"op": rng.choice(["_header", "_parameter", "_hostheader"]), "arg": None})
-                prog[-1]["arg"] = L({"_header": b"X-S: v%d" % len(prog), "_parameter": b"s%d=v" % len(prog), "_hostheader": b"Host: h.example"}[prog[-1]["op"]])
+                # (values may contain the separator again: only the first ": " / "=" splits name and value)
+                hv = rng.choice([b"v%d" % len(prog), b"default-src 'self'; img-src data: https:", b"a: b: c", b": "])
+                pv = rng.choice([b"v", b"a=b", b"=", b"x==y"])
+                prog[-1]["arg"] = L({"_header": b"X-S%d: " % len(prog) + hv, "_parameter": b"s%d=" % len(prog) + pv, "_hostheader": rng.choice([b"Host: h.example", b"Host: h.example: 8080"])}[prog[-1]["op"]])
             prog.append({"op": "build", "arg": kind})
             needs_text = term in ("header", "parameter", "uri_append")
             encs = []
@@ -192,6 +195,73 @@ CHECK_DEADLOCK FALSE
         f = "recover_exception" if "ok" in failed else ("transform_output" if "encoded" in failed else "recover_value")
         viol(f, {"prog": [(s["op"], s["arg"]) for s in e["prog"]], "failed": failed, "r": e["r"], "payload_lens": {k: len(v) for k, v in e["c2"].items()}}, e["_cls"])
     ctx.sample({"random_program": [(s["op"], s["arg"]) for s in ev[0]["prog"]]})
+
+    # (5) payloads beyond 64 KiB: too large to hand to TLC byte by byte, so the library is compared in both directions with the
+    # harness' step-by-step mirror of TransformR (ref/transform.py, itself checked against TLC's encodings by the session check)
+    from vt.ref import transform as reft
+
+    class Keys:
+        def __init__(self, keys):
+            self.it = iter(keys)
+
+        def randrange(self, n):
+            raise AssertionError
+
+    def ref_encode(ops, data, keys):
+        it = iter(keys)
+        for op, arg in ops:
+            if op == "mask":
+                k = next(it)
+                data = k + reft.xor4(data, k)
+            else:
+                data = reft.enc_step(op, arg, data, None)
+        return data
+
+    def ref_decode(ops, data):
+        for op, arg in reversed(ops):
+            if op == "mask":
+                data = reft.xor4(data[4:], data[:4])
+            elif op == "append":
+                data = data[: len(data) - len(arg)]
+            elif op == "prepend":
+                data = data[len(arg):]
+            elif op == "base64":
+                import base64 as b64
+
+                data = b64.b64decode(data)
+            elif op == "netbios":
+                data = reft.nb_dec(data, 97)
+        return data
+
+    big_progs = [[("mask", b"")], [("mask", b""), ("base64", b"")], [("netbios", b""), ("mask", b"")], [("prepend", b"abc"), ("mask", b""), ("append", b"z")], [("mask", b""), ("mask", b"")]]
+    sizes = [65536, 140001] if q else [65535, 65536, 65537, 131071, 131072, 200003, 262145]
+    nbig = 0
+    for ops in big_progs:
+        for size in sizes:
+            payload = rng.randbytes(size)
+            keys = [rng.randbytes(4) for o in ops if o[0] == "mask"]
+            prog = [{"op": "build", "arg": "output"}] + [{"op": o, "arg": L(a)} for o, a in ops] + [{"op": "print", "arg": []}]
+            steps = lib_steps(prog)
+            with Nonces([L(k) for k in keys]):
+                o = core.outcome(lambda: T(steps=list(steps)).transform(c2.C2Data(output=payload)))
+            ctx.evaluations += 2
+            brief = {"prog": [o_[0] for o_ in ops], "payload_len": size}
+            want = ref_encode(ops, payload, keys)
+            if o[0] != "ok":
+                viol("transform_exception", {**brief, "got": str(o)[:200]}, {"class": "large"})
+            elif bytes(o[1].body) != want:
+                first = next((i for i, (a, b_) in enumerate(zip(bytes(o[1].body), want)) if a != b_), min(len(o[1].body), len(want)))
+                viol("transform_output", {**brief, "first_difference_at": first, "got_len": len(o[1].body), "expected_len": len(want)}, {"class": "large"})
+            elif ref_decode(ops, bytes(o[1].body)) != payload:
+                raise core.MachineryError("ref/transform.py does not invert its own encoding")
+            http = c2.HttpRequest(method=b"POST", uri=b"/x", params={}, headers={}, body=want)
+            b = core.outcome(lambda: recover(T(steps=list(steps)), http, b"/x"))
+            if b[0] != "ok" or bytes(b[1].output or b"") != payload:
+                viol("recover_value", {**brief, "got": str(b)[:120] if b[0] != "ok" else "different bytes"}, {"class": "large"})
+            ctx.count_distinct(("large", tuple(o_[0] for o_ in ops), size))
+            nbig += 1
+    ctx.traces += nbig
+    ctx.notes["large_payloads"] = {"cases": nbig, "sizes": sizes}
     ctx.notes["rule"] = ("model: every single-block program (<= MaxEnc encoders from the full set incl. empty / syntax-laden arguments, each of the 4 terminations) and multi-block "
                          "programs with statics x all payloads over {0,65,255} to MaxPay x {empty, non-empty} initial URI; table: the same programs x 6 payloads (all residues mod 3 and 4) "
                          "checked in both directions with the nonce chosen by the spec; random: up to 3 blocks, 6 encoders, binary arguments, payloads to 4 KB; distinct = programs")
